@@ -36,10 +36,19 @@ def rowFits (a : Atom) : Bool :=
   decide (a.chain.length ≤ ParserV2.canWriteMaxChainLen) &&
   decide (a.resSeq ≤ (ParserV2.canWriteMaxResSeq : Int))
 
-/-- PDB-derived tables are taken to fit; an empty table fits; a mmCIF-derived table fits iff the maxima of
-serial, chain-id length and residue number do not exceed the limits -/
+/-- the same three tests as the branch `format_type == "PDB"` makes them (columns `serial`, `chainID`, `resSeq`) -/
+def rowFitsPdb (a : Atom) : Bool :=
+  decide (a.serial ≤ (ParserV2.canWritePdbMaxSerial : Int)) &&
+  decide (a.chain.length ≤ ParserV2.canWritePdbMaxChainLen) &&
+  decide (a.resSeq ≤ (ParserV2.canWritePdbMaxResSeq : Int))
+
+/-- `can_write_pdb`.  A mmCIF-derived table: an empty table fits; otherwise it fits iff the maxima of serial,
+chain-id length and residue number do not exceed the limits.  A PDB-derived table: as the source has it
+(`Gen.ParserV2.pdbAssumedToFit`, read off the source on every run) — either taken to fit without a look at it
+(the code up to the fix: a PDB-derived table whose identifiers were edited, as `unifier.main` does, passed),
+or tested against the same three limits (maxima over an empty column are NaN, so an empty table fits). -/
 def canWritePdb : Format → Table → Bool
-  | .pdb, _ => true
+  | .pdb, t => if ParserV2.pdbAssumedToFit then true else t.all rowFitsPdb
   | .cif, t => t.isEmpty || t.all rowFits
 
 /-! ## `fit_to_pdb` -/
